@@ -441,7 +441,7 @@ def corpus_cases():
 def scenario_list(ctx):
     rng = ctx.sub_rng("scenarios")
     scens = [(mn, mx, [list(p) for p in progs]) for mn, mx, progs in SCENARIOS]
-    for _ in range(ctx.n(4, 30)):
+    for _ in range(ctx.n(6, 30)):
         scens.append(gen_scenario(rng, ctx.tier == "thorough"))
     return scens
 
@@ -468,7 +468,7 @@ def _schedules(ctx, with_model):
             ctx.mismatch("schedules", {"driver": "drv_c18"}, "driver unavailable", repr(e)[:200])
     bound = 3 if ctx.tier == "thorough" else 2
     for (mn, mx, progs), mo in zip(scens, outs):
-        explore_scenario(ctx, mn, mx, progs, bound, ctx.n(110, 1500), ctx.n(25, 300), rng, mo, found)
+        explore_scenario(ctx, mn, mx, progs, bound, ctx.n(180, 1500), ctx.n(40, 300), rng, mo, found)
 
 
 # ------------------------------------------------------------------------------------------------------
@@ -652,7 +652,7 @@ def refusal_path(ctx):
 # ------------------------------------------------------------------------------------------------------
 def correspondence(ctx):
     common.repo_on_path()
-    _sequential(ctx, ctx.n(120, 3000))
+    _sequential(ctx, ctx.n(200, 3000))
     ctx._c18_done = True
     _schedules(ctx, with_model=True)
 
